@@ -177,6 +177,10 @@ func genMsg(t *rapid.T) msgCase {
 	m := gen.Msg(t, mo)
 	if rapid.IntRange(0, 40).Draw(t, "bigrcode") == 0 {
 		m.Rcode = rapid.IntRange(16, 4095).Draw(t, "rc") // unrepresentable unless an OPT is present
+		if gen.Rarely(t, 2) {
+			// Rcode is an int: values outside the 12 bits have no wire form at all
+			m.Rcode = rapid.SampledFrom([]int{4096, 4097, 65535, 65536, 1 << 20, -1, -4096}).Draw(t, "rcout")
+		}
 	}
 	return msgCase{M: m}
 }
@@ -274,6 +278,23 @@ func checkRR(c rrCase) error {
 	w2, err := wm.EncodeRR(r2)
 	if err != nil || !bytes.Equal(w2, w) {
 		return pbt.Errf("unpacked record differs from the original: %s", hexdiff(w2, w))
+	}
+	// the header-first decoder (for callers that keep header and RDATA apart): the RDATA alone at
+	// offset 0, and the RDATA behind other octets, give the same record
+	for _, lead := range []int{0, 1 + int(r.TTL%7)} {
+		h := dns.RR_Header{Name: u.Header().Name, Rrtype: r.Type, Class: r.Class, Ttl: r.TTL, Rdlength: uint16(len(rd))}
+		rbuf := append(bytes.Repeat([]byte{0xEE}, lead), rd...)
+		u2, end, err := dns.UnpackRRWithHeader(h, rbuf, lead)
+		if err != nil || end != len(rbuf) {
+			return pbt.Errf("UnpackRRWithHeader(RDATA of %d octets at offset %d) failed: err=%v end=%d (%s)", len(rd), lead, err, end, hx(rd))
+		}
+		r3, err := wm.FromLib(u2, true)
+		if err != nil {
+			return pbt.Errf("record from UnpackRRWithHeader cannot be read back: %v", err)
+		}
+		if w3, err := wm.EncodeRR(r3); err != nil || !bytes.Equal(w3, w) {
+			return pbt.Errf("UnpackRRWithHeader (RDATA at offset %d) gives a different record: %s", lead, hexdiff(w3, w))
+		}
 	}
 	// RFC 3597 view of a typed record
 	if _, known := wm.Layout[r.Type]; known && !r.NoRdata && r.Type != wm.TOPT && r.Type != wm.TPrivate {
